@@ -25,7 +25,7 @@ pub enum K {
 
 pub struct Lower {
     tmp: usize,
-    /// text of the implicit error-type argument passed to polymorphic callees: `ε` or `Err`
+    /// text of the implicit error-type argument passed to callees
     pub eps: String,
 }
 
@@ -313,12 +313,13 @@ impl Lower {
             }
             E::Neg(_, _) => format!("Machine.negS p {}", a[0]),
             E::Unwrap(_) => format!("Machine.unwrapOpt {}", a[0]),
-            E::OkOr(_, tag) => format!("Machine.okOr {} Err.{}", a[0], tag),
+            E::OkOr(_, tag) => format!("Machine.okOr {} E.{}", a[0], tag),
             E::Assert(_) => format!("Machine.assertThat {}", a[0]),
             E::Call(name, _, is_res) => {
                 let mut s = name.clone();
-                if !*is_res {
-                    s.push_str(&format!(" (ε := {})", self.eps));
+                s.push_str(&format!(" (ε := {})", self.eps));
+                if *is_res {
+                    s.push_str(" E");
                 }
                 s.push_str(" p");
                 for x in a {
@@ -348,6 +349,7 @@ impl Lower {
         match k {
             K::Yield => c,
             K::Then(pat, body) => match c {
+                Comp::Ok(_) if pat == "_" => (*body).clone(),
                 Comp::Ok(v) => Comp::Let(pat, v, body),
                 other => Comp::Bind(Box::new(other), pat, body),
             },
@@ -413,14 +415,15 @@ impl Lower {
             E::Match(sc, st, arms) => {
                 let (arms2, st2, k2) = (arms.clone(), st.clone(), k.clone());
                 // the scrutinee is named so that guarded arms can fall through by re-matching
-                let name_it = arms.iter().any(|a| a.guard.is_some()) || !arms.iter().all(|a| pat_matchable(&a.pat));
+                let use_match = arms.iter().all(|a| pat_matchable(&a.pat));
+                let name_it = arms.iter().any(|a| a.guard.is_some()) || !use_match;
                 let sc_e: E = (**sc).clone();
                 if name_it && !matches!(sc_e, E::Var(_)) {
                     let t = self.fresh();
-                    let body = self.lower_arms(&t, &st2, &arms2, k2);
+                    let body = self.lower_arms(&t, &st2, &arms2, k2, use_match);
                     return self.lower(&sc_e, K::Then(t, Rc::new(body)));
                 }
-                self.with_vals(&[&**sc], vec![], Box::new(move |s: &mut Self, v: Vec<String>| s.lower_arms(&v[0], &st2, &arms2, k2)))
+                self.with_vals(&[&**sc], vec![], Box::new(move |s: &mut Self, v: Vec<String>| s.lower_arms(&v[0], &st2, &arms2, k2, use_match)))
             }
             E::Let(p, i, b) => {
                 let body = self.lower(b, k);
@@ -487,29 +490,42 @@ impl Lower {
         }
     }
 
-    fn lower_arms(&mut self, s: &str, st: &Ty, arms: &[Arm], k: K) -> Comp {
+    fn lower_arms(&mut self, s: &str, st: &Ty, arms: &[Arm], k: K, use_match: bool) -> Comp {
         if arms.is_empty() {
             // a guarded last arm fell through: rustc's exhaustiveness check makes this unreachable,
             // but it is never emitted silently — Lean will reject the non-exhaustive match instead
             return Comp::Match(s.to_string(), vec![]);
         }
-        let use_match = arms.iter().all(|a| pat_matchable(&a.pat));
         if use_match {
+            // A guarded arm `P if g => b` becomes `| P => if g then b else <fall-through>`.  The
+            // fall-through re-matches the scrutinee against the unguarded arms before it (they
+            // cannot match — we got past them — but make the match exhaustive for Lean, exactly as
+            // rustc's exhaustiveness check counts only unguarded arms) and the arms after it.
+            // Later arms that the guarded pattern subsumes are only reachable through that
+            // fall-through, so they are left out of the outer match (Lean rejects redundant arms).
             let mut out = vec![];
+            let mut guarded_seen: Vec<Pat> = vec![];
             for (i, a) in arms.iter().enumerate() {
+                if guarded_seen.iter().any(|g| subsumes(g, &a.pat)) {
+                    continue;
+                }
                 let alts = self.expand_or(&a.pat);
                 let pat_txt = alts.iter().map(|x| self.lpat(x)).collect::<Vec<_>>().join(" | ");
-                let pat_txt = strip_outer_parens_for_arm(&pat_txt, alts.len());
                 let body = match &a.guard {
                     None => self.lower(&a.body, k.clone()),
                     Some(g) => {
                         let gv = self.fresh();
                         let yes = self.lower(&a.body, k.clone());
-                        let no = self.lower_arms(s, st, &arms[i + 1..], k.clone());
+                        let mut rest: Vec<Arm> = arms[..i].iter().filter(|x| x.guard.is_none()).cloned().collect();
+                        rest.extend(arms[i + 1..].iter().cloned());
+                        let no = self.lower_arms(s, st, &rest, k.clone(), use_match);
                         let test = Comp::If(gv.clone(), Box::new(yes), Box::new(no));
                         self.lower(g, K::Then(gv, Rc::new(test)))
                     }
                 };
+                if a.guard.is_some() {
+                    guarded_seen.push(a.pat.clone());
+                }
                 out.push((pat_txt, body));
             }
             return Comp::Match(s.to_string(), out);
@@ -532,7 +548,7 @@ impl Lower {
             Some(g) => {
                 let gv = self.fresh();
                 let yes = self.lower(&a.body, body_k);
-                let no = self.lower_arms(s, st, &arms[1..], k.clone());
+                let no = self.lower_arms(s, st, &arms[1..], k.clone(), use_match);
                 let test = Comp::If(gv.clone(), Box::new(yes), Box::new(no));
                 self.lower(g, K::Then(gv, Rc::new(test)))
             }
@@ -541,13 +557,25 @@ impl Lower {
             return wrap(inner);
         }
         let c = if conds.len() == 1 { conds[0].clone() } else { format!("({})", conds.join(" && ")) };
-        let rest = self.lower_arms(s, st, &arms[1..], k);
+        let rest = self.lower_arms(s, st, &arms[1..], k, use_match);
         Comp::If(c, Box::new(wrap(inner)), Box::new(rest))
     }
 }
 
-fn strip_outer_parens_for_arm(s: &str, _n: usize) -> String {
-    s.to_string()
+/// every value matching `q` also matches `p` (sound, not complete)
+fn subsumes(p: &Pat, q: &Pat) -> bool {
+    match (p, q) {
+        (Pat::Wild, _) | (Pat::Var(_), _) => true,
+        (_, Pat::Or(qs)) => qs.iter().all(|x| subsumes(p, x)),
+        (Pat::Or(ps), _) => ps.iter().any(|x| subsumes(x, q)),
+        (Pat::Tuple(a), Pat::Tuple(b)) => a.len() == b.len() && a.iter().zip(b.iter()).all(|(x, y)| subsumes(x, y)),
+        (Pat::Ctor(e1, v1, a), Pat::Ctor(e2, v2, b)) => e1 == e2 && v1 == v2 && a.iter().zip(b.iter()).all(|(x, y)| subsumes(x, y)),
+        (Pat::SomeP(a), Pat::SomeP(b)) => subsumes(a, b),
+        (Pat::NoneP, Pat::NoneP) => true,
+        (Pat::Bool(a), Pat::Bool(b)) => a == b,
+        (Pat::Int(a, _, _), Pat::Int(b, _, _)) => a == b,
+        _ => false,
+    }
 }
 
 // -------------------------------------------------------------------------------------
@@ -562,7 +590,7 @@ pub fn print(c: &Comp, ind: usize) -> String {
     let pad = " ".repeat(ind);
     match c {
         Comp::Ok(v) => format!("{}Res.ok {}", pad, v),
-        Comp::Err(t) => format!("{}Res.err Err.{}", pad, t),
+        Comp::Err(t) => format!("{}Res.err E.{}", pad, t),
         Comp::Panic => format!("{}Res.panic", pad),
         Comp::Term(t) => format!("{}{}", pad, t),
         Comp::Bind(c1, pat, body) => {
